@@ -33,7 +33,10 @@ KEY_GROUPS = [
 ]
 
 
-def key_of(name, reason):
+def key_of(name, reason, form=None):
+    if form and ("address-size prefix 67" in reason or "segment prefixes" in reason) and \
+            any(o.get("implicit") and o.get("mem") and not o.get("reg") for o in form.get("operands", [])):
+        return "implicit-mem-override-dropped"
     for names, k in KEY_GROUPS:
         if name in names:
             return k
@@ -64,7 +67,8 @@ def run_resilient(cmd, lines):
         aborts.append((lines[start + k] if start + k < len(lines) else "?", first[0] if first else err[-300:]))
         out += o[:k] + ["abort"]
         start += k + 1
-        if len(aborts) > 60:
+        if len(aborts) > 1500:
+            out += ["abort"] * (len(lines) - len(out))
             break
     return out, [a for a in aborts if a]
 
@@ -72,7 +76,7 @@ def run_resilient(cmd, lines):
 def build_sweep(kept, rng, tier):
     """emit lines (without the leading 'emit') + the form each came from"""
     emits, meta = [], []
-    nvar = 2 if tier == "quick" else 14
+    nvar = 4 if tier == "quick" else 60
     for (f, roles) in kept:
         for mode in (64, 32):
             for v in range(nvar):
@@ -80,6 +84,8 @@ def build_sweep(kept, rng, tier):
                 if r is None:
                     continue
                 tail, off = r
+                if f["name"] == "xchg" and tail.count(":0") >= 2 and " M:" not in tail and all(x.endswith(":0") for x in tail.split()[3:]):
+                    continue   # xchg acc, acc is emitted as nop (90): same meaning, no database form of xchg
                 if f["name"] == "lea" and " M:" in tail and ":none:0:none:0:" in tail:
                     continue   # lea of a bare absolute address: the value, not the address, matters (REX.W removal); model-only
                 emits.append("%d %x %d %s" % (mode, BASE, off, tail))
@@ -183,7 +189,7 @@ def run(res):
     res.coverage["distinct_nontrivial"] = len({emits[i] for i in acc})
     res.coverage["rule"] = ("every translated database form x {64,32}-bit mode x %d seeded instantiations (register ids at every extension-bit "
                             "boundary, all addressing shapes, disp8/disp32/disp8*N limits, boundary immediates, decorations, options); "
-                            "non-trivial = distinct call the assembler accepted (its bytes are judged by the Lean monitor)") % (2 if res.tier == "quick" else 14)
+                            "non-trivial = distinct call the assembler accepted (its bytes are judged by the Lean monitor)") % (4 if res.tier == "quick" else 60)
     res.coverage["exhaustive"] = False
     res.coverage["monitored_answers"] = len(chk)
     res.coverage["modelled_calls_compared"] = modelled
@@ -217,7 +223,7 @@ def run(res):
     if bad:
         groups = collections.OrderedDict()
         for i, m in bad:
-            k = key_of(emits[i].split()[3], m)
+            k = key_of(emits[i].split()[3], m, meta[i])
             groups.setdefault(k, []).append((i, m))
         for k, items in list(groups.items())[:12]:
             i, m = min(items, key=lambda t: len(emits[t[0]]))
@@ -252,7 +258,7 @@ def oracle_crosscheck(res, emits, impl, mon, cidx):
     warn = p.stderr.count("invalid instruction encoding")
     res.coverage["oracle"] = {"tool": mc, "encodings": len(sample), "invalid_by_oracle": warn}
     if warn:
-        res.notes.append("SPEC-SUSPECT: llvm-mc-14 rejects %d of %d encodings the Lean monitor accepted (mostly ISA extensions newer than LLVM 14)" % (warn, len(sample)))
+        res.notes.append("SPEC-SUSPECT: llvm-mc-14 rejects %d of %d encodings the Lean monitor accepted (not analysed further: LLVM 14 lacks the newer extensions and the -mattr list is partial)" % (warn, len(sample)))
 
 
 def replay(data):
